@@ -87,6 +87,13 @@ def check(run):
             plans.append([dict(op="Map", s=sv, a=0, b=0, aux=[], fam="callno")])
             plans.append([dict(op="GroupBy", s=sv, a=0, b=0, aux=[], fam="callpar")])
             plans.append([dict(op="CountBy", s=sv, a=0, b=0, aux=[], fam="callpar")])
+    # a comparison that is not transitive ("differs by at most one"): DistinctFunc keeps a value unless it equals a KEPT value
+    for n in range(0, 6):
+        for sv in _it2.product([1, 2, 3, 5], repeat=n):
+            plans.append([dict(op="DistinctFunc", s=list(sv), a=0, b=0, aux=[], fam="near")])
+            if n <= 3:
+                for a in (1, 2, 4):
+                    plans.append([dict(op="ContainsFunc", s=list(sv), a=a, b=0, aux=[], fam="near")])
     # the map helpers on float64 keys, NaN included (key id 0; several NaN entries can coexist, with distinct values here)
     for m in ([], [1, 5], [0, 5], [0, 5, 0, 6], [1, 5, 0, 6], [1, 5, 2, 6, 0, 7, 0, 8, 0, 9], [3, 7, 1, 7]):
         for op in ("MClone", "MClear", "MKeys", "MValues"):
